@@ -155,7 +155,7 @@ Proof.
   exists s1, s2. split; auto. split; auto.
   assert (E1 : Some s1 = run fixed (tbody W1) (init 0 []) W1_unlimited) by (symmetry; exact R1).
   assert (E2 : Some s2 = run fixed (tbody W1) (init 0 []) W1_serial) by (symmetry; exact R2).
-  vm_compute in E1, E2. inversion E1. inversion E2.
+  vm_compute in E1, E2. injection E1 as H0. injection E2 as H1.
   assert (L1 : linear s1) by (apply linear_b_sound; subst s1; vm_compute; reflexivity).
   assert (L2 : linear s2) by (apply linear_b_sound; subst s2; vm_compute; reflexivity).
   split; auto. split; auto. split; [subst s2; vm_compute; reflexivity|].
